@@ -91,6 +91,8 @@ func init() {
 			"Permutation testing is replaced by the order-independence argument (O5) plus last-writer-wins by range order (O4).",
 		Assumptions: []string{"option constructors are the exported functions returning util.Option", "specification tables in checker/rule_c19.go encode 'the setting it names'"},
 		Mutants: []Mutant{
+			{ID: "C19-transport-type-checked-lowercase", Desc: "WithTransportType validates the lower-cased name but stores the original", Rule: "C19/validated-is-stored",
+				Edits: []Edit{{File: "driver/options/generic.go", Old: "\t\tswitch transportType {", New: "\t\tswitch strings.ToLower(transportType) {"}, {File: "driver/options/generic.go", Old: "import (\n\t\"fmt\"\n", New: "import (\n\t\"fmt\"\n\t\"strings\"\n"}}},
 			{ID: "C19-wrong-field", Desc: "WithTermWidth stores TermHeight", Rule: "C19/O3",
 				Edits: []Edit{{File: "driver/options/transport.go", Old: "a.TermWidth = i", New: "a.TermHeight = i"}}},
 			{ID: "C19-platform-order", Desc: "platform options appended after the user's", Rule: "C19/O5",
@@ -122,6 +124,8 @@ func runC19(c *Ctx, r *Report) {
 	r.Rule("C19/O1O2", "ignored sentinel only on the non-matching path and never after a store; no success without the store; stores only into the asserted target", 45)
 	r.Rule("C19/O3", "each option stores exactly the setting the specification names, taking the value from its own parameter or constant", 45)
 	r.Rule("C19/O4", "every constructor applies the full option list, in order, to every target type, skipping only the ignored sentinel", 10)
+	r.Rule("C19/validated-is-stored", "an option that checks its argument against a list of valid values stores the very value it checked", 2)
+	checkValidatedIsStored(c, r, "C19/validated-is-stored")
 	r.Rule("C19/O5", "options do not read other settings; platform constructor passes platform options first and user options after", 1)
 	r.Rule("C19/O6", "netconf.NewDriver copies every field it re-declares from the generic driver", 3)
 	r.Rule("C19/O8", "behind its apply loop a constructor assigns an option-settable field only to default it while it is still nil", 9)
@@ -132,8 +136,8 @@ func runC19(c *Ctx, r *Report) {
 	// O3(i): no two options store the same setting, except synonyms
 	synonyms := map[string]bool{
 		"transport.SSHArgs.ConfigFile": true, "transport.SSHArgs.KnownHostsFile": true, // explicit path vs system default
-		"transport.SSHArgs.PrivateKeyPassPhrase": true,                               // WithAuthPassphrase / WithAuthPrivateKey
-		"generic.Driver.Logger":                  true,                               // WithLogger / WithDefaultLogger
+		"transport.SSHArgs.PrivateKeyPassPhrase": true, // WithAuthPassphrase / WithAuthPrivateKey
+		"generic.Driver.Logger":                  true, // WithLogger / WithDefaultLogger
 	}
 	byField := map[string][]string{}
 	for name, oi := range infos {
